@@ -24,7 +24,8 @@ RULE = ("code lines built from token sequences (identifiers, operators, numbers,
         "separate, non-deciding class. distinct = (target, line, level, width); non-trivial = >=3 tokens and "
         "the result has >=2 lines")
 ASSUMPTIONS = [
-    "token = what the wrapper's own lexer (shlex, non-posix) returns for the input line",
+    "token = a blank-separated word; a quote at the start of a word opens a string that runs to the matching "
+    "quote (Python lines: a backslash inside the string escapes the next character; Fortran lines: no escapes)",
     "a line holding a single token longer than the width cannot fit and is exempt (as the property says)",
 ]
 ANCHORS = ["dagrt.codegen.utils:wrap_line_base"]
@@ -58,6 +59,9 @@ STRS = ["\"can't be reduced any further\"", "'value of \"dt\" is too small'", "'
         # characters that mean something to the targets OUTSIDE a string: comment signs, continuation markers
         "'step rejected! retrying with smaller dt'", "'a & b'", "\"50% done # not a comment\"", "'back\\slash'",
         "'semi; colon'", "'!'", "'&'"]
+# Python only: what repr() gives for a text holding both kinds of quote, or a backslash
+PY_STRS = ["'can\\'t find \"dt_min\"'", "'it\\'s'", "\"say \\\"no\\\" twice\"", "'a\\\\'", "'tab\\there  and \\' there'",
+           "'ends with a quote\\''", "'\\'\\''"]
 
 
 def py_expr_tokens(rng, n):
@@ -110,17 +114,35 @@ def gen_python_line(rng):
         for i in range(rng.randint(1, 5)):
             if i:
                 toks.append(",")
-            toks.append(rng.choice(STRS) if rng.random() < 0.6 else rng.choice(["a", "bb"]))
+            toks.append(rng.choice(STRS + PY_STRS) if rng.random() < 0.6 else rng.choice(["a", "bb"]))
         toks.append(")")
     elif kind < 0.9:
         toks = ["x", "="] + py_expr_tokens(rng, n) + ["if"] + ["a", "<", "bb"] + ["else"] + py_expr_tokens(rng, 2)
     else:
-        toks = ["raise", "E", "(", rng.choice(STRS), ",", rng.choice(STRS), ")"]
+        toks = ["raise", "E", "(", rng.choice(STRS), ",", rng.choice(STRS + PY_STRS), ")"]
     return glue(rng, toks)
 
 
+def call_wrapper(wrap, line, rec, target, **kw):
+    """The real wrapper on a line; a line that IS a token sequence (for the monitor's own lexer) and that the
+    wrapper refuses has no wrapped form at all."""
+    try:
+        return wrap(line, **kw)
+    except ValueError as ex:
+        try:
+            lex(line, "\\" if target == "python" else "&")
+        except ValueError:
+            rec.count("unbalanced_lines_refused")
+            return None
+        rec.violation("wrapper-refuses-a-token-sequence", f"[{target}] {type(ex).__name__}: {ex} for {line!r}",
+                      dict(kw, line=line, target=target))
+        return None
+
+
 def check_python_ast(line, level, width, rec, P_wrap):
-    res = P_wrap(line, level=level, width=width)
+    res = call_wrapper(P_wrap, line, rec, "python", level=level, width=width)
+    if res is None:
+        return []
     pre = ""
     for i in range(level):
         pre += "    " * i + "if 1:\n"
@@ -176,11 +198,12 @@ def run_tokens(shard, rec):
                 line = (" " * rng.choice([0, 0, 1, 3])).join([""]) + (" " * rng.choice([1, 1, 2])).join(toks)
                 if rng.random() < 0.5:
                     indent = rng.choice([" ", "    "])
-                    res = F_wrap(line, level=level, width=width, indentation=indent)
+                    res = call_wrapper(F_wrap, line, rec, "fortran", level=level, width=width, indentation=indent)
                     target = "fortran"
                 else:
-                    res = P_wrap(line, level=level, width=width)
+                    res = call_wrapper(P_wrap, line, rec, "python", level=level, width=width)
                     target = "python"
+                res = res or []
             else:
                 # non-deciding class: quote glued to a preceding character
                 line = rng.choice(["x = f(\"a  b\", c)", "call g('two  spaces', 1)",
@@ -194,7 +217,7 @@ def run_tokens(shard, rec):
                 continue
             mon.flush(rec)
             try:
-                nt = len(lex(line)) >= 3 and len(res) >= 2
+                nt = len(lex(line, "\\" if target == "python" else "&")) >= 3 and len(res) >= 2
             except ValueError:
                 nt = False
             rec.case([target, line, level, width], nontrivial=nt)
@@ -225,6 +248,17 @@ def sample_programs():
            "`<builtin>norm_2`(myzero) + `<builtin>norm_2`(myarray) * <dt> + <t> * 3 + `<builtin>len`(nodes) "
            "+ `<builtin>norm_2`(vdm) + `<builtin>norm_2`(identity)")
     progs.append(("arrays", DAGCode.from_phases_list(
+        [cb.as_execution_phase("primary")], "primary"), {}))
+    # error messages with apostrophes, blanks and quotes (both targets put messages into the generated text)
+    with CodeBuilder("primary") as cb:
+        cb("<dt>", "<dt>/2")
+        with cb.if_("<dt> < 1e-12"):
+            cb.raise_(RuntimeError, "the step size can't be reduced any further: it fell below the controller's "
+                                    "smallest step, \"dt_min\"")
+        with cb.if_("<dt> < 1e-6"):
+            cb.raise_(ValueError, "can't")
+        cb("<t>", "<t> + <dt>")
+    progs.append(("messages", DAGCode.from_phases_list(
         [cb.as_execution_phase("primary")], "primary"), {}))
     return progs
 
@@ -290,12 +324,28 @@ def run_generators(shard, rec):
     try:
         for name, dag, utm in sample_programs():
             before = rec.counters.get("wrap_contract_evaluations_python", 0)
-            check_emitted(rec, PythonCodeGenerator(class_name="M")(dag), "python", name, {"sample": name}, mon)
+            try:
+                ptext = PythonCodeGenerator(class_name="M")(dag)
+                ftext = f.CodeGenerator("m_" + name, user_type_map=utm)(dag)
+            except Exception as ex:
+                # a generator that cannot wrap one of its own lines has no wrapped form at all
+                rec.violation(f"generator-raises-{type(ex).__name__}-while-emitting",
+                              f"[{name}] {type(ex).__name__}: {ex}", {"sample": name})
+                rec.case(["generator-program", name])
+                continue
+            check_emitted(rec, ptext, "python", name, {"sample": name}, mon)
             rec.count("generator_lines_python",
                       rec.counters.get("wrap_contract_evaluations_python", 0) - before)
             before = rec.counters.get("wrap_contract_evaluations_fortran", 0)
-            check_emitted(rec, f.CodeGenerator("m_" + name, user_type_map=utm)(dag), "fortran", name,
-                          {"sample": name})
+            check_emitted(rec, ftext, "fortran", name, {"sample": name})
+            if fort.have_gfortran():
+                # the emitted module as a whole must still be Fortran (free-form continuation rules, literals)
+                with fort.Scratch("vf-c20-") as d:
+                    rc, out = fort.compile_(d, [("m.f90", ftext)], exe="m.o", flags=["-fsyntax-only"])
+                rec.count("emitted_fortran_modules_syntax_checked")
+                if rc != 0:
+                    rec.violation("emitted-fortran-module-rejected-by-compiler",
+                                  f"[{name}] gfortran -fsyntax-only: {out[-600:]}", {"sample": name})
             rec.count("generator_lines_fortran",
                       rec.counters.get("wrap_contract_evaluations_fortran", 0) - before)
             mon.flush(rec, context="generator:" + name)
